@@ -1,8 +1,8 @@
 SPECIFICATION Spec
 CONSTANTS
-  Scripts <- AllScripts
-  Subs = {"ok", "crash", "unused", "parts", "syntax", "mathy", "mathmut"}
-  MaxLen = 2
+  Scripts = {"plain", "tifa_types"}
+  Subs = {"ok", "attrassign", "attrlit", "methodcall"}
+  MaxLen = 3
   ClearResets <- CodeClearResets
   Writes <- W
   Reads <- R
